@@ -240,6 +240,9 @@ def run(ctx, P):
     r2.interface_rules(ctx, P, "C08g", want=("registry",))
     r2.rewritten_probe_restarts(ctx, P, "C08h")
     r2.compares_like_with_like(ctx, P, "C08i")
+    from . import r4
+    r4.probes_driven_every_iteration(ctx, P, "C08j")
+    r4.every_packet_dispatched(ctx, P, "C08k")      # conflicts are seen in responses: every response reaches handle_response
     from . import f5
     f5.check_map_key_consistency(ctx, P, "C08f.F5.name-changes-keys", "name_changes", "DnsRegistry")
     f4.check_service_selected_by_resolved_name(ctx, P, "C08e")
